@@ -102,11 +102,27 @@ impl QueryEngine {
         Ok(engine)
     }
 
+    /// Register `metrics` for the given chunk paths and plan `sql` against that binding
+    /// in one critical section.
+    ///
+    /// The session-wide `metrics` name is re-bound by every request. A plan resolves the
+    /// name once, when it is built, and from then on refers to the table it was built on;
+    /// so the registration lock has to cover registration *and* planning, and the returned
+    /// `DataFrame` can be executed outside the lock without being affected by the chunk
+    /// sets other concurrent requests register in the meantime.
+    pub async fn plan_on_chunks(&self, chunk_paths: &[String], sql: &str) -> Result<DataFrame> {
+        let _guard = self.metrics_table_query_lock.lock().await;
+        self.register_metrics_table_for_chunks_locked(chunk_paths)
+            .await?;
+        Ok(self.ctx.sql(sql).await?)
+    }
+
     /// Register `metrics` for the given chunk paths, then execute the operation.
     ///
-    /// The registration lock is released before `operation` runs so that slow
-    /// queries do not block other concurrent requests from registering their
-    /// own chunk sets.
+    /// The registration lock is held until `operation` has finished: the operation
+    /// resolves the `metrics` name whenever it plans a statement, and must not see the
+    /// chunk set of another request. Prefer [`Self::plan_on_chunks`], which only
+    /// serializes planning.
     pub async fn with_metrics_table<F, Fut, T>(
         &self,
         chunk_paths: &[String],
@@ -116,7 +132,9 @@ impl QueryEngine {
         F: FnOnce() -> Fut,
         Fut: Future<Output = Result<T>>,
     {
-        self.register_metrics_table_for_chunks(chunk_paths).await?;
+        let _guard = self.metrics_table_query_lock.lock().await;
+        self.register_metrics_table_for_chunks_locked(chunk_paths)
+            .await?;
         #[cfg(cardinalsin_verif)]
         crate::verif_hooks::pause("query.after_register").await;
         operation().await
@@ -264,8 +282,19 @@ impl QueryEngine {
         tenant_id: &str,
         index_controller: Arc<crate::adaptive_index::AdaptiveIndexController>,
     ) -> Result<Vec<RecordBatch>> {
-        // 1. Analyze query for filter predicates
         let df = self.ctx.sql(sql).await?;
+        self.execute_dataframe_with_indexes(df, tenant_id, index_controller)
+            .await
+    }
+
+    /// Execute an already planned query with index awareness for adaptive indexing
+    pub async fn execute_dataframe_with_indexes(
+        &self,
+        df: DataFrame,
+        tenant_id: &str,
+        index_controller: Arc<crate::adaptive_index::AdaptiveIndexController>,
+    ) -> Result<Vec<RecordBatch>> {
+        // 1. Analyze query for filter predicates
         let plan = df.logical_plan();
         let filter_columns = Self::extract_filter_columns(plan);
 
